@@ -25,6 +25,60 @@ NA = {
 PENDING = "check not built yet in this round (planned: DESIGN.md section 5)"
 
 CHECKS = {
+    "C04": dict(
+        engine="E4 sequential histories",
+        category="exploration",
+        text="The property quantifies over index-state histories. A seeded state machine over live "
+             "objects (array / GeoSeries / GeoDataFrame with extra columns and arbitrary, possibly "
+             "non-unique index; 7 kinds; missing, empty and duplicate rows; whole pages of inert rows) "
+             "performs build_sindex(p in 1..31, page_size in {1,2,3,5,8,512}), lazy .sindex, derivations "
+             "(slice, take, mask, iloc, copy, column subset, concat - the child may or may not inherit the "
+             "index), pickle and parquet round trips ('restart'), and cx queries with present / omitted / "
+             "reversed ends. Every cx result is checked for membership, order, labels and other columns "
+             "against an exact Fraction-arithmetic reference geometry, and for identity with the same query "
+             "on a fresh never-indexed twin built from the model. No fault or schedule dimension exists in "
+             "this property; that is stated, not dressed up.",
+        design_ref="DESIGN.md 5/C04, 2.5",
+        note="trusted: the 120-line exact reference geometry (0 disagreements with intersects_bounds on "
+             "151 200 generated pairs), pandas indexing; boxes of positive area only",
+        technique="sequential layer of the simulator: seeded operation histories with restart steps, "
+                  "refinement against an exact reference model + never-indexed twin",
+    ),
+    "C16": dict(
+        engine="E4 sequential histories",
+        category="exploration",
+        text="The property quantifies over derivation histories. A seeded state machine derives arrays "
+             "from arrays (integer index, slices with any step, masks, take with/without fill, concat, "
+             "copy, iteration, Series/DataFrame wrapping with iloc/loc/mask, pickle and parquet round "
+             "trips through SimFS as restart steps; chains up to depth 6; 7 kinds x 5 subtypes) and "
+             "refines every step against a Python-list model: len, isna, every element, expected "
+             "exception types, and bounds / total_bounds / length / area / intersects_bounds (whole and "
+             "by positions) / intersects(shape) / hilbert_distance on the derived array against the same "
+             "on a fresh array built from the model list.",
+        design_ref="DESIGN.md 5/C16",
+        note="no schedule, clock or fault exists in this property; when the fresh twin raises too the "
+             "step is not comparable (counted); trusted: pyarrow take/slice/concat, pandas indexing",
+        technique="sequential layer of the simulator: seeded derivation histories with restart steps, "
+                  "refinement against a list model",
+    ),
+    "C20": dict(
+        engine="E4 sequential histories + E2/E3 for the Dask half",
+        category="exploration",
+        text="Seeded operation histories over frames with 2-3 geometry columns whose active column is "
+             "neither first nor called 'geometry': set_geometry, row selection (iloc, mask, query, head, "
+             "take, sample), sort_values, copy, column subsets with / without the active column / without "
+             "any geometry, cx, pickle, concat of agreeing frames, assign, rename; and Dask steps "
+             "(from_pandas, Dask set_geometry, persist, compute, to_parquet + read_parquet_dask(geometry=)) "
+             "executed by the simulated executor on SimFS. After each step: result type, .geometry.name, "
+             "and use - cx, build_sindex, sjoin on the frame vs a single-geometry frame holding only the "
+             "model's active column; for Dask the active name inside every partition (map_partitions), "
+             "partition bounds against the active column's true extents and Hilbert packing.",
+        design_ref="DESIGN.md 5/C20",
+        note="the pandas half has no schedule or fault in it; merge is not listed by the property and not "
+             "generated",
+        technique="sequential operation histories against a (columns, active) model + deterministic "
+                  "simulation of the Dask executor for the per-partition clause",
+    ),
     "C11": dict(
         engine="E3 parquet store",
         category="exploration",
@@ -190,6 +244,10 @@ def main():
             {"name": "E1 pack-to-storage", "path": "dsim/e1.py",
              "serves_properties": ["C10", "C19", "C18"],
              "kind_free_text": "real pack_partitions_to_parquet on SimFS under the simulated Dask executor"},
+            {"name": "E4 sequential histories", "path": "dsim/props/c04.py, c16.py, c20.py",
+             "serves_properties": ["C04", "C16", "C20"],
+             "kind_free_text": "seeded operation/derivation histories with pickle/parquet restart steps, "
+                               "refined against list / reference-geometry / (columns, active) models"},
             {"name": "E3 parquet store", "path": "dsim/e3.py",
              "serves_properties": ["C11", "C12", "C06"],
              "kind_free_text": "parquet datasets as stored state on SimFS: write histories, reads in any "
